@@ -1002,12 +1002,8 @@ mod progs {
     const IDS: [&str; 8] = ["a", "b", "x", "y", "foo", "osc", "gain", "t1"];
     const OPS: [&str; 15] = ["+", "-", "*", "/", "%", "^", "==", "!=", "<", "<=", ">", ">=", "&&", "||", "|>"];
     impl<'r> G<'r> {
-        /// optional block comment, never right after `,` `{` `}` (open finding F14)
-        fn cm(&mut self, before: &str) -> String {
-            let t = before.trim_end();
-            if t.ends_with('}') || t.ends_with('{') || t.ends_with(',') {
-                return String::new();
-            }
+        /// optional block comment (also right after `,` `{` `}`: the former finding F14 is repaired)
+        fn cm(&mut self, _before: &str) -> String {
             if self.comments && self.r.chance(1, 12) {
                 self.uniq += 1;
                 format!(" /* g{} */ ", self.uniq)
@@ -1082,6 +1078,10 @@ mod progs {
             for i in 0..n {
                 if i > 0 {
                     s.push(',');
+                    if self.comments && self.r.chance(1, 10) {
+                        self.uniq += 1;
+                        s.push_str(&format!(" /* c{} */", self.uniq));      // a comment right after a comma
+                    }
                     s.push_str(&self.spnl(ind));
                 }
                 let e = self.expr(d, ind);
@@ -1148,7 +1148,9 @@ mod progs {
                     let body = self.expr(d - 1, ind);
                     if self.r.chance(1, 2) {
                         // a return annotation needs white space before an expression body that starts with a word
-                        let gap = if ret.is_empty() { self.sp() } else { " " };
+                        // (also before a body that is itself a lambda: `| || | e` is read as ONE lambda whose parameter
+                        //  list contains the token `||`, which the parser skips without an error)
+                        let gap = if ret.is_empty() && !body.starts_with('|') { self.sp() } else { " " };
                         format!("|{}|{ret}{gap}{body}", if ps.is_empty() { " ".to_string() } else { ps.join(",") })
                     } else {
                         format!("|{}|{ret} {{\n{}{body}\n{}}}", if ps.is_empty() { " ".to_string() } else { ps.join(", ") }, " ".repeat(ind + 2), " ".repeat(ind))
@@ -1200,7 +1202,7 @@ mod progs {
                 s.push_str(&" ".repeat(ind));
                 let st = self.stmt(d, ind);
                 s.push_str(&st);
-                if self.comments && !st.trim_end().ends_with('}') && self.r.chance(1, 6) {
+                if self.comments && self.r.chance(1, 6) {
                     self.uniq += 1;
                     s.push_str(&format!(" // g{}", self.uniq));
                 }
